@@ -43,6 +43,14 @@ func nodeLocalSource(c *ssa.Call) string {
 	case strings.HasPrefix(n, "github.com/tendermint/tendermint/rpc/core."):
 		return "node's own transaction index (" + n + ")"
 	}
+	// the logger's configuration (level, output) is set per node; a logger method that reports something back makes the
+	// caller's control flow depend on it
+	if sc := c.Call.StaticCallee(); sc != nil && fnPkg(sc) != nil && fnPkg(sc).Path() == Mod+"/log" && sc.Signature.Results().Len() > 0 {
+		res := sc.Signature.Results().At(0).Type()
+		if b, ok := res.Underlying().(*types.Basic); ok && b.Info()&(types.IsBoolean|types.IsInteger|types.IsString) != 0 {
+			return "node log configuration (" + n + ")"
+		}
+	}
 	return ""
 }
 
